@@ -11,7 +11,7 @@ CONSTANTS Families <- FamiliesDef
 # Deviations of the as-coded machine that have been repaired in /repo (see OpClient.tla, constant Repaired).  On the tree as found
 # this is empty.  After a repair of get_counter_offset ("validated-mempool") or of autofill's failure path ("failed-simulation")
 # add the name here (VERIF_C25_REPAIRED overrides it for experiments on a patched copy).
-REPAIRED = ()
+REPAIRED = ("validated-mempool", "failed-simulation")
 
 
 def repaired():
